@@ -628,11 +628,13 @@ class Generator:
     return out
 
   # ------------------------------------------------------------------ building nodes
-  def make_node(self, rng, ctx, doc, dense=False, forbid=()):
+  def make_node(self, rng, ctx, doc, dense=False, forbid=(), minimal=False):
     """A conforming instance of ctx (attributes only; children are added by later operations)."""
     node = Node(ctx.tag, ctx)
     p = 0.9 if dense else rng.choice([0.1, 0.25, 0.5])
-    recipe = RECIPES.get(ctx.name) if rng.random() < RECIPE_P else None
+    if minimal:
+      p = 0.0        # required attributes only (plus what the presence constraints need)
+    recipe = RECIPES.get(ctx.name) if (rng.random() < RECIPE_P and not minimal) else None
     chosen = []
     for a in ctx.attrs:
       if a.name in forbid:
@@ -746,7 +748,7 @@ class Generator:
       doc.root.set('model', self.uid('m'))
     return doc
 
-  def graft(self, rng, doc, ctx, dense=False, reuse=0.7, new_leaf=True):
+  def graft(self, rng, doc, ctx, dense=False, reuse=0.7, new_leaf=True, minimal=False):
     """Make sure a path root..ctx exists in the document; returns the (new) instance of ctx."""
     chain = []
     c = ctx
@@ -765,7 +767,7 @@ class Generator:
         if (not last and rng.random() < reuse) or (last and not new_leaf):
           node = rng.choice(existing)
           continue
-      child = self.make_node(rng, c, doc, dense=dense and last)
+      child = self.make_node(rng, c, doc, dense=dense and last, minimal=minimal)
       node.add(child)
       doc.register(child)
       self._hooks(rng, doc, child)
